@@ -1,6 +1,7 @@
 import TongoProofs.Lemmas.BocTotal
 import TongoProofs.Lemmas.BocHash
 import TongoProofs.Lemmas.BocToString
+import TongoProofs.Lemmas.BocOrderFinal
 import TongoGen.BocHeader
 import TongoProofs.Lemmas.GenTiesA
 /-! Property C07 — parsing untrusted bag-of-cells bytes never crashes and yields sound cells.
@@ -42,7 +43,7 @@ theorem parse_sound (bs : Bytes) (h : bs.length < two63) (t : Table) (roots : Li
   rw [hx] at hs hp
   simp only at hp
   subst hp
-  exact hs.1
+  exact hs.1.1
 
 /-- A sound table unfolds: every root denotes a finite cell tree (a cyclic result is impossible), and a fuel of
 1026 — the depth limit, not the size of the input — always suffices: any structural recursion over a parsed cell
@@ -64,6 +65,34 @@ theorem hash_no_panic (bs : Bytes) (h : bs.length < two63) (t : Table) (roots : 
   intro r _ fuel c hc
   have hs := parse_sound bs h t roots hp
   exact reprHash_no_panic H c (unfold_treeOK t hs.1 fuel r c hc)
+
+/-- A parse result is a valid layout in the sense of C01 (`parse_emit`, `order_valid`): sound, and every exotic cell
+carries its type in its first data byte (the reader keeps the data canonically: re-encoding the bits it keeps gives
+back the bytes it read, `setTopUpped_inv`). -/
+theorem parse_valid (bs : Bytes) (h : bs.length < two63) (t : Table) (roots : List Nat)
+    (hp : parseBoc bs = .ok (t, roots)) : ValidLayout t roots := by
+  have hs := parseBocM_spec bs h
+  unfold parseBoc M.run at hp
+  unfold Spec at hs
+  rcases hx : parseBocM bs 0 with ⟨o, s'⟩
+  rw [hx] at hs hp
+  simp only at hp
+  subst hp
+  exact ⟨hs.1.1, hs.1.2⟩
+
+/-- Re-serialising a parse result never fails and never panics: for every parsed `(t, roots)`, every key identifying
+its cells and all 2³ option sets, the model of the Go writer (importCell / reorderCells / revisit, then the header
+arithmetic) returns bytes, and its cell order is valid (composition of `parse_valid` with C01 `order_valid`). With one
+root and fewer than 2²⁴ cells those bytes parse back to the same cells (`C01.roundtrip_go_writer_single`). -/
+theorem reserialize_ok {K : Type} [BEq K] [Hashable K] [LawfulBEq K] (bs : Bytes) (h : bs.length < two63)
+    (t : Table) (roots : List Nat) (hp : parseBoc bs = .ok (t, roots)) (key : Nat → Option K)
+    (hk : Order.KeyInjOn t key) (idx crc cache : Bool) :
+    ∃ o bs', Order.order t key roots = .ok o ∧ Order.serializeBocModel t key roots idx crc cache = .ok bs' ∧
+      Order.OrderValid t roots o := by
+  obtain ⟨o, ho, hval⟩ := Order.orderWith_valid t roots key Order.goSpecial (parse_valid bs h t roots hp) hk
+  have hord : Order.order t key roots = .ok o := ho
+  exact ⟨o, Writer.serializeOrdered o.table o.roots idx crc cache o.cacheBits, hord,
+    by simp only [Order.serializeBocModel, hord], hval⟩
 
 /-- Printing is bounded by the visit budget: `Cell.ToString()` of any root of a parse result (model `Str.toStringOut`
 of `toStringImpl` with its `*iterationsLimit`) emits at most 4 · 65536 + 1 lines — also for a DAG whose unfolding has
